@@ -32,6 +32,7 @@ RULE += (' Also: a manager whose enter calls pop_all() on the stack it is being 
 RULE += (' Also: plain callables returning the awaitable of an asynchronous exit, pushed.')
 RULE += (' Also: enters failing with a BaseException that is not an Exception.')
 RULE += (' Also: managers whose exit is a staticmethod / classmethod.')
+RULE += (' Also: callbacks (plain and async def) registered without any arguments and returning a true value.')
 RULE += (' Also: exit-only objects (no matching enter) pushed, also callable ones.')
 ASSUMPTIONS = ["nested async with/with statements of the running interpreter are the reference for routing",
                "__context__ chains are not compared"]
@@ -48,7 +49,10 @@ KINDS_EXTRA = KINDS + ["dualcm", "dualpush", "scmpush", "acmpush",
                        # access binds them correctly, like the with statements do
                        "staticacm", "classscm",
                        # objects that offer an EXIT only (a release handle, an already entered resource): push takes them
-                       "xaexit", "xexit", "xexit_callable"]  # ...push: a manager object pushed, never entered
+                       "xaexit", "xexit", "xexit_callable",
+                       # callbacks registered WITHOUT any arguments (plain / async def): what they return is still
+                       # nobody's business - they can never suppress
+                       "cb0", "acb0"]  # ...push: a manager object pushed, never entered
 BEHS = ["falsy", "truthy", "raise", "raise_if_exc"]
 # sampled in addition to the enumerated behaviours: exits that raise a BaseException which is not an Exception
 BEHS_EXTRA = BEHS + ["raise_base", "raise_base_if_exc", "reraise_same", "reraise_same",
@@ -321,7 +325,21 @@ def mk_entry(kind, beh, i, log, susp, choice, shared=None):
         return lambda et, ev, tb: aexit2(et, ev, tb)
     if kind == "spush":
         return exit_logic
-    if kind == "cb":
+    if kind == "acb0":
+        async def acb(*args, **kw):
+            log.append(("cb", i, args, tuple(kw.items())))
+            if susp:
+                await Suspend(("cb", i), susp)
+            if beh in ("raise", "raise_if_exc"):
+                raise E(f"c{i}")
+            if beh.startswith("raise_base"):
+                raise EB(f"cb{i}")
+            if beh.startswith("raise_std:"):
+                raise STD[beh.split(":")[1]](f"cs{i}")
+            return True
+
+        return acb
+    if kind in ("cb", "cb0"):
         def cb(*args, **kw):
             log.append(("cb", i, args, tuple(kw.items())))
             if beh in ("raise", "raise_if_exc"):
@@ -406,6 +424,20 @@ def run_stack(case, stats):
 
             async with W():
                 await nest(i + 1)
+        elif k in ("cb0", "acb0"):
+            class W:
+                async def __aenter__(self):
+                    pass
+
+                async def __aexit__(self, *x, _k=k):
+                    if _k == "acb0":
+                        await e()
+                    else:
+                        e()
+                    return False
+
+            async with W():
+                await nest(i + 1)
         else:
             class W:
                 async def __aenter__(self):
@@ -443,6 +475,9 @@ def run_stack(case, stats):
                 elif k in ("apush", "wpush", "spush", "dualpush", "scmpush", "acmpush", "xaexit", "xexit", "xexit_callable"):
                     if s.push(e) is not e:
                         misc.append("push did not return its argument")
+                elif k in ("cb0", "acb0"):
+                    if s.callback(e) is not e:
+                        misc.append("callback did not return its argument")
                 else:
                     if s.callback(e, i, kw=i, callback=i, self=i) is not e:
                         misc.append("callback did not return its argument")
